@@ -67,6 +67,7 @@ def directed_cases(seed: int, tier: str) -> typing.List[dict]:
                 "abort-then-whole": [dict(base, abort_at=2), dict(base)],
                 "same-twice": [dict(base), dict(base), dict(base, entry="cli")],
                 "one-call-helper-over-edited-inputs": [{"lang": lang, "entry": "gt"}, {"lang": lang, "entry": "gt", "variant": True}, {"lang": lang, "entry": "gt"}, {"lang": lang, "entry": "gt", "omit_ser": True}],
+                "one-call-helper-other-language-first": [{"lang": LANGS[(li + 1) % 3], "entry": "gt"}, {"lang": lang, "entry": "gt"}, {"lang": "html", "entry": "gt"}, {"lang": lang, "entry": "gt", "omit_ser": True}],
                 "abort-mid-file-then-reuse": [dict(base, abort_at=5, abort_style="write"), dict(base, reuse=True), dict(base)],
                 "abort-on-empty-line-then-reuse": [dict(base, omit_ser=True, abort_at=1, abort_style="write", abort_file=0, abort_write=2), dict(base, omit_ser=True, reuse=True), dict(base, omit_ser=True, abort_at=1, abort_style="write", abort_file=1, abort_write=9), dict(base, omit_ser=True, reuse=True)],
                 "edited-inputs-first": [dict(base, variant=True), dict(base), dict(base, variant=True)],
